@@ -1,6 +1,6 @@
 CONSTANTS
   DevsOn <- MCDevsNow
-  Deep = FALSE
+  Deep = TRUE
 SPECIFICATION Spec
 CHECK_DEADLOCK FALSE
 INVARIANTS
